@@ -87,7 +87,7 @@ theorem stmt_main : ∀ f : Nat,
           clear hex hex1
           simp only [WFStmt, Bool.and_eq_true] at hwf
           simp only [exprsOf] at hWF
-          have hsim := expr_sim hE henv (hinv.rel.agreeOn _ _) hinv.inv (hWF.mono (by simp)) hvc hcc
+          have hsim := expr_sim hE henv (hinv.rel.agreeOn _ _ _) hinv.inv hinv.immVal (hWF.mono (by simp)) hvc hcc
           have hcond := sim_cond hsim hb
           rw [henv]
           cases b with
@@ -114,7 +114,7 @@ theorem stmt_main : ∀ f : Nat,
           clear hex hex1
           simp only [WFStmt, Bool.and_eq_true] at hwf
           simp only [exprsOf] at hWF
-          have hsim := expr_sim hE henv (hinv.rel.agreeOn _ _) hinv.inv (hWF.mono (by simp)) hvc hcc
+          have hsim := expr_sim hE henv (hinv.rel.agreeOn _ _ _) hinv.inv hinv.immVal (hWF.mono (by simp)) hvc hcc
           have hcond := sim_cond hsim hb
           rw [henv]
           cases b with
@@ -204,7 +204,7 @@ theorem stmt_main : ∀ f : Nat,
       obtain ⟨vc, hvc, hex1⟩ := bind_ok hex
       obtain ⟨b, hb, hex2⟩ := bind_ok hex1
       clear hex hex1
-      have hsim := expr_sim hE henv (hinv.rel.agreeOn _ _) hinv.inv (hWF.mono (by simp)) hvc hcc
+      have hsim := expr_sim hE henv (hinv.rel.agreeOn _ _ _) hinv.inv hinv.immVal (hWF.mono (by simp)) hvc hcc
       have hcond := sim_cond hsim hb
       cases b with
       | false =>
@@ -275,7 +275,7 @@ theorem prog_correct_fixed {ms : MacroSem} {WF : MState → CExpr → Prop} (hE 
   obtain ⟨σ1, hpro, h1, h2, h3, h4, h5, h6, h7, hout, hin⟩ := prologue_exec ms st.imms σ0
   have hnone : ∀ n, lookupS n σ0.locals = none := by intro n; rw [hloc]; rfl
   have hinv : Inv c σ0 σ1 := by
-    refine ⟨⟨h1.symm, h2.symm, h3.symm, h4.symm, h5.symm, h6.symm, h7.symm, ?_⟩, ⟨?_, ?_, ?_⟩, ?_⟩
+    refine ⟨⟨h1.symm, h2.symm, h3.symm, h4.symm, h6.symm, h7.symm, ?_⟩, ⟨?_, ?_, ?_⟩, ?_, ?_, ?_⟩
     · intro n v hn; rw [hnone] at hn; cases hn
     · intro n t v hn hv
       have hni : n ∉ st.imms.map (·.1) := by
@@ -283,10 +283,12 @@ theorem prog_correct_fixed {ms : MacroSem} {WF : MState → CExpr → Prop} (hE 
         exact (Ctx.ok_types hc hn).2.2 ((himms n).2 hm)
       rw [hout n hni, hnone] at hv; cases hv
     · intro l hl
-      rw [h5]
-      exact hin l (hpi ▸ (himms l).1 hl)
+      exact ⟨_, hin l (hpi ▸ (himms l).1 hl)⟩
     · intro ov hov; rw [h3]; exact hsrcs ov hov
+    · intro l hl
+      exact hin l (hpi ▸ (himms l).1 hl)
     · intro n _; exact hnone n
+    · intro l _; exact hnone l
   obtain ⟨σIL', hx, hinv'⟩ := stmts_correct_fixed hE (env := { assigned := assignedOfList prog, cfg := Cfg.fixed })
     rfl hc hcs hwf hWF hinv hex
   exact ⟨σIL', mkSeq_exec.2 (ExecSeqIL_append hpro hx), hinv'.rel⟩
@@ -662,7 +664,7 @@ example : ∃ eff σC' σIL', compileProg Cfg.fixed demoProg = .ok eff ∧ ExecC
     have : progImms demoProg = [] := by decide
     intro l; rw [this]; simp [demoCtx]
   have hWF : WFHyp noMacros WFSimple demoCtx (exprsOfList demoProg) := by
-    intro e he σ vC hinv hev
+    intro e he σ vC hinv _ hev
     simp (config := { decide := true }) [demoProg, exprsOfList, exprsOf] at he
     have hvar : ∀ n t, lookupS n demoCtx.types = some t → evalC noMacros σ (.var n t) = .ok vC →
         WFSimple σ (.var n t) := by
@@ -744,7 +746,7 @@ theorem stmt_correct_fixed_unrestricted_false : ¬ stmt_correct_fixed_unrestrict
   obtain ⟨⟨eff, st'⟩, hcomp⟩ := isOk_elim (x := compileStmt chainEnv { imms := [], hyb := 0 } chainStmt) (by decide)
   obtain ⟨σC', hC⟩ := isOk_elim (x := execC noMacros 5 chainStmt chainState) (by decide)
   have hWF : WFHyp noMacros WFSimple chainCtx (exprsOf chainStmt) := by
-    intro e he σ vC hinv hev
+    intro e he σ vC hinv _ hev
     simp (config := { decide := true }) [chainStmt, exprsOf] at he
     have hvar : ∀ n t, lookupS n chainCtx.types = some t → evalC noMacros σ (.var n t) = .ok vC →
         WFSimple σ (.var n t) := by
@@ -757,18 +759,20 @@ theorem stmt_correct_fixed_unrestricted_false : ¬ stmt_correct_fixed_unrestrict
         exact ⟨x, hl⟩
     rcases he with rfl | rfl <;> exact hvar _ _ (by decide) hev
   have hinv : Inv chainCtx chainState chainState := by
-    refine ⟨StRel.refl _, ⟨?_, ?_, ?_⟩, ?_⟩
+    refine ⟨StRel.refl _, ⟨?_, ?_, ?_⟩, ?_, ?_, ?_⟩
     · intro n t v hn hv
       rcases lookupS_two hn with ⟨rfl, rfl⟩ | ⟨rfl, rfl⟩ <;>
         rcases lookupS_two hv with ⟨h, rfl⟩ | ⟨h, rfl⟩ <;> first | exact ⟨_, rfl⟩ | (revert h; decide)
     · intro l hl; simp [chainCtx] at hl
     · intro ov hov; simp [chainCtx] at hov
+    · intro l hl; simp [chainCtx] at hl
     · intro n hn
       cases hl : lookupS n chainState.locals with
       | none => rfl
       | some v =>
         exfalso
         rcases lookupS_two hl with ⟨rfl, _⟩ | ⟨rfl, _⟩ <;> (revert hn; decide)
+    · intro l hl; simp [chainCtx] at hl
   obtain ⟨σIL', hx, hrel⟩ := H noMacros WFSimple (exprOK_simple _) chainCtx chainEnv rfl (by decide)
     chainStmt _ st' eff hcomp hWF chainState chainState σC' hinv (ExecC_iff.2 ⟨5, hC⟩)
   -- the C side ends with b = 3
